@@ -360,6 +360,8 @@ func TestC33(t *testing.T) {
 			prefSeqs   []int64
 			prefPrevOK []bool // at preparation time every job of the previous batch had finished
 			prefLock   sync.Mutex
+
+			prefOverflow bool
 		)
 
 		limit := int(p.W)
@@ -406,6 +408,13 @@ func TestC33(t *testing.T) {
 
 					b := len(prefCalls)
 					prevOK := true
+
+					if b >= (p.N+limit-1)/limit {
+						// more preparations than batches exist: stop the loop under test, reported below
+						prefOverflow = true
+
+						return errors.New("c33: preparation called more often than batches exist")
+					}
 
 					if b > 0 {
 						for i := (b - 1) * limit; i < batchEnd(b-1) && i < p.N; i++ {
@@ -620,6 +629,10 @@ func TestC33(t *testing.T) {
 			}
 		case "batch":
 			nb := (p.N + limit - 1) / limit
+
+			if prefOverflow {
+				r.Violation(rt, "batch-preparation-count", "%s: preparation was called a %d. time although there are only %d batches (calls so far: last=%v)", desc, nb+1, nb, prefCalls)
+			}
 
 			// sequential expectation
 			var (
